@@ -39,10 +39,14 @@ def canonMetrics (t : MTable) : String :=
   "M[" ++ joinSp ((t.ms.mergeSort (fun a b => a.1.1 < b.1.1 || (a.1.1 == b.1.1 && a.1.2 ≤ b.1.2))).map (fun p =>
     s!"{p.1.1}|{if p.1.2 == "" then "-" else p.1.2}={p.2.d.c},{p.2.d.t},{p.2.d.e},{p.2.d.mn},{p.2.d.mx},{p.2.d.sq}")) ++ "]"
 
+/-- ids at or above this stand for fragments that are not valid JSON: they are sampled and counted like any other, but a
+payload is built from the valid fragments only -/
+def badBase : Nat := 1000000000
+
 def canonPayload : Payload → String
   | .metrics t _ => canonMetrics t
-  | .events r => s!"E[rs={r.cap},seen={r.seen}|{natList (sortNat (r.evs.toList.map (·.data)))}]"
-  | .errors a => s!"R[{natList (sortNat (a.toList.map (·.data)))}]"
+  | .events r => s!"E[rs={r.cap},seen={r.seen}|{natList (sortNat ((r.evs.toList.map (·.data)).filter (· < badBase)))}]"
+  | .errors a => s!"R[{natList (sortNat ((a.toList.map (·.data)).filter (· < badBase)))}]"
   | .slow l => "S[" ++ joinSp (sortStr (l.map (fun x => s!"{x.id}:{x.count}:{x.total}:{x.min}:{x.max}"))) ++ "]"
   | .traces s f r => s!"T[{natList (sortNat ((s.toList ++ f.toList ++ r.toList).map (·.data)))}]"
   | .pkgs l => "P[" ++ String.intercalate "," (l.map (fun p => p.name ++ ":" ++ p.version)) ++ "]"
@@ -55,7 +59,7 @@ def canonPayload : Payload → String
 def canonPayloadOf (r : Req) : String :=
   match r.cat, r.payload with
   -- log events shorter than 4 bytes (ids below 1000 here) are skipped by LogEvents.CollectorJSON
-  | .logEv, .events x => s!"L[{natList (sortNat ((x.evs.toList.map (·.data)).filter (· ≥ 1000)))}]"
+  | .logEv, .events x => s!"L[{natList (sortNat ((x.evs.toList.map (·.data)).filter (fun d => d ≥ 1000 && d < badBase)))}]"
   | _, p => canonPayload p
 
 def canonReq (r : Req) : String :=
@@ -78,13 +82,20 @@ def splitList (s : String) (sep : String) : List String := if s == "" || s == "-
 
 def parseTxn (t : Tokens) : TxnM :=
   let nat := fun (k : String) (d : Nat) => ((kvGet t k).bind String.toNat?).getD d
-  let ids := fun (k : String) => (splitList (kvOr t k "") ",").filterMap String.toNat?
+  -- fragments the agent sent as invalid JSON keep their identity shifted by `badBase`: they take part in sampling and
+  -- counting, but are left out of every payload and of the ledgers
+  let bad : List String := match kvOr t "badfrag" "0" with
+    | "0" => []
+    | "1" => ["ce"]
+    | s => s.splitOn ","
+  let mark := fun (k : String) (i : Nat) => if bad.contains k then i + badBase else i
+  let ids := fun (k : String) => ((splitList (kvOr t k "") ",").filterMap String.toNat?).map (mark k)
   { name := kvOr t "name" "txn", pid := nat "pid" 1, prio := (nat "prio" 0 : Nat), syn := kvOr t "syn" "0" == "1",
-    event := (kvGet t "ev").bind String.toNat?,
+    event := ((kvGet t "ev").bind String.toNat?).map (mark "ev"),
     metrics := (splitList (kvOr t "m" "") ";").filterMap (fun e => match e.splitOn ":" with
       | [n, sc, f, d] => (parseMData d).map (fun md => { name := n, isScoped := sc == "1", forced := f == "1", d := md })
       | _ => none),
-    errors := (splitList (kvOr t "err" "") ",").filterMap (fun e => (parsePair e).map (fun p => { prio := p.1, data := p.2.toNat })),
+    errors := (splitList (kvOr t "err" "") ",").filterMap (fun e => (parsePair e).map (fun p => { prio := p.1, data := mark "err" p.2.toNat })),
     slows := (splitList (kvOr t "sql" "") ",").filterMap (fun e => match (e.splitOn ":").map String.toNat? with
       | [some a, some b, some c, some d, some e, some f] => some { id := a, count := b, total := c, min := d, max := e, text := f }
       | _ => none),
@@ -174,27 +185,27 @@ def idsOfPayloadStr (p : String) : List Nat :=
   else []
 
 def liveIds (h : HarvestM) : List (String × Nat) :=
-  (h.txn.evs.toList.map (fun e => ("analytic_event_data", e.data))) ++
-  (h.custom.evs.toList.map (fun e => ("custom_event_data", e.data))) ++
-  (h.errEv.evs.toList.map (fun e => ("error_event_data", e.data))) ++
-  (h.span.evs.toList.map (fun e => ("span_event_data", e.data))) ++
-  ((h.log.evs.toList.filter (·.data ≥ 1000)).map (fun e => ("log_event_data", e.data))) ++
-  (h.errors.toList.map (fun e => ("error_data", e.data))) ++
-  ((h.trSyn.toList ++ h.trForce.toList ++ h.trReg.toList).map (fun e => ("transaction_sample_data", e.data)))
+  ((h.txn.evs.toList.map (fun e => ("analytic_event_data", e.data))) ++
+   (h.custom.evs.toList.map (fun e => ("custom_event_data", e.data))) ++
+   (h.errEv.evs.toList.map (fun e => ("error_event_data", e.data))) ++
+   (h.span.evs.toList.map (fun e => ("span_event_data", e.data))) ++
+   ((h.log.evs.toList.filter (·.data ≥ 1000)).map (fun e => ("log_event_data", e.data))) ++
+   (h.errors.toList.map (fun e => ("error_data", e.data))) ++
+   ((h.trSyn.toList ++ h.trForce.toList ++ h.trReg.toList).map (fun e => ("transaction_sample_data", e.data)))).filter (·.2 < badBase)
 
 def reqIds (r : Req) : List (String × Nat) :=
   match r.payload with
   -- damaged log events (ids below 1000: fewer than 4 bytes) are never part of a payload: they are no ledger entries
-  | .events x => (x.evs.toList.filter (fun e => r.cat != .logEv || e.data ≥ 1000)).map (fun e => (r.cat.cmd, e.data))
-  | .errors a => a.toList.map (fun e => (r.cat.cmd, e.data))
+  | .events x => (x.evs.toList.filter (fun e => (r.cat != .logEv || e.data ≥ 1000) && e.data < badBase)).map (fun e => (r.cat.cmd, e.data))
+  | .errors a => (a.toList.filter (·.data < badBase)).map (fun e => (r.cat.cmd, e.data))
   | .traces a b c => (a.toList ++ b.toList ++ c.toList).map (fun e => (r.cat.cmd, e.data))
   | _ => []
 
 def txnIds (t : TxnM) : List (String × Nat) :=
-  (t.event.toList.map (fun i => ("analytic_event_data", i))) ++ (t.customs.map (fun i => ("custom_event_data", i))) ++
-  (t.errEvs.map (fun i => ("error_event_data", i))) ++ (t.spans.map (fun i => ("span_event_data", i))) ++
-  ((t.logs.filter (· ≥ 1000)).map (fun i => ("log_event_data", i))) ++ (t.errors.map (fun e => ("error_data", e.data))) ++
-  (t.trace.toList.map (fun x => ("transaction_sample_data", x.2.1)))
+  ((t.event.toList.map (fun i => ("analytic_event_data", i))) ++ (t.customs.map (fun i => ("custom_event_data", i))) ++
+   (t.errEvs.map (fun i => ("error_event_data", i))) ++ (t.spans.map (fun i => ("span_event_data", i))) ++
+   ((t.logs.filter (· ≥ 1000)).map (fun i => ("log_event_data", i))) ++ (t.errors.map (fun e => ("error_data", e.data))) ++
+   (t.trace.toList.map (fun x => ("transaction_sample_data", x.2.1)))).filter (·.2 < badBase)
 
 def retryableCmd (cmd : String) : Bool :=
   cmd == "metric_data" || cmd == "analytic_event_data" || cmd == "custom_event_data" || cmd == "error_event_data" ||
